@@ -52,7 +52,7 @@ def xml_header_hash(base_hh):
             for f in sorted(fn):
                 if f.endswith((".h", ".inc", ".hpp")):
                     p = os.path.join(dp, f)
-                    h.update(p.encode())
+                    h.update(os.path.relpath(p, root).encode())
                     with open(p, "rb") as fh:
                         h.update(fh.read())
     return h.hexdigest()
@@ -61,8 +61,10 @@ def xml_header_hash(base_hh):
 def compile_xml(src, variant, hh):
     cc = ["g++", "-std=c++20"]
     fl = xml_flags(variant)
+    rel = os.path.relpath(src, build.REPO) if src.startswith(build.REPO + os.sep) else os.path.relpath(src, build.VERIF)
+    flkey = " ".join(cc + fl).replace(build.REPO, "<repo>")
     with open(src, "rb") as fh:
-        key = build.sha(fh.read() + hh.encode() + " ".join(cc + fl).encode() + src.encode())
+        key = build.sha(fh.read() + hh.encode() + flkey.encode() + rel.encode())
     od = os.path.join(build.CACHE, "obj", key[:2])
     os.makedirs(od, exist_ok=True)
     obj = os.path.join(od, key + ".o")
